@@ -599,6 +599,31 @@ template <class T> static std::vector<Op<T>> make_ops(bool thorough)
                              guarded(w, "sub-array resize", false, [&] { do_resize((*w.a)[w.ra.lo], s); });
                              sub = resized(sub, s, true); w.structure_touched = true;
                            } });
+          // the same on the LAST sub-array, and (3 and more dimensions) on the last sub-array of the last sub-array: re-allocating a row
+          // inside the last outermost slab leaves every other slab where it was (added after seed C11_3: a contiguity test that forgets the
+          // last sub-array is only wrong for such an object)
+          for (auto r : std::vector<std::pair<int, int>>{ { 0, 0 }, { -1, 3 } })
+            ops.push_back({ "a[last].resize(" + vmc::str(r.first) + ":" + vmc::str(r.second) + " ...)", [r](W& w) {
+                             if (w.ra.empty()) return;
+                             Node& sub = w.ra.ch.back();
+                             Node s = sub;
+                             if (sub.d == 1) s = mk1(r.first, r.second);
+                             else { Node proto = sub.empty() ? zero_like(box(std::vector<std::pair<int,int>>(sub.d - 1, { 0, 1 }))) : zero_like(sub.ch[0]); s = mkN(sub.d, r.first, r.second, std::vector<Node>(r.second - r.first + 1, proto)); }
+                             guarded(w, "sub-array resize", false, [&] { do_resize((*w.a)[w.ra.hi], s); });
+                             sub = resized(sub, s, true); w.structure_touched = true;
+                           } });
+          if constexpr (TR::N >= 3)
+            for (auto r : std::vector<std::pair<int, int>>{ { 0, 0 }, { -1, 3 } })
+              ops.push_back({ "a[last][last].resize(" + vmc::str(r.first) + ":" + vmc::str(r.second) + " ...)", [r](W& w) {
+                               if (w.ra.empty() || w.ra.ch.back().empty()) return;
+                               Node& mid = w.ra.ch.back();
+                               Node& sub = mid.ch.back();
+                               Node s = sub;
+                               if (sub.d == 1) s = mk1(r.first, r.second);
+                               else { Node proto = sub.empty() ? zero_like(box(std::vector<std::pair<int,int>>(sub.d - 1, { 0, 1 }))) : zero_like(sub.ch[0]); s = mkN(sub.d, r.first, r.second, std::vector<Node>(r.second - r.first + 1, proto)); }
+                               guarded(w, "sub-sub-array resize", false, [&] { do_resize((*w.a)[w.ra.hi][mid.hi], s); });
+                               sub = resized(sub, s, true); w.structure_touched = true;
+                             } });
           ops.push_back({ "a[first]=b[last]", [](W& w) { if (w.ra.empty() || w.rb.empty()) return; guarded(w, "sub-array assign", false, [&] { (*w.a)[w.ra.lo] = (*w.b)[w.rb.hi]; }); w.ra.ch[0] = w.rb.ch.back(); w.structure_touched = true; } });
         }
     }
@@ -695,6 +720,7 @@ int main(int argc, char** argv)
   run_kind<Array<2, float>>(ctx, "A2", false, th ? 4 : 3, unit);
   run_kind<Array<2, float>>(ctx, "A2v", true, th ? 3 : 3, unit);
   run_kind<Array<3, float>>(ctx, "A3", false, th ? 3 : 2, unit);
+  run_kind<Array<3, float>>(ctx, "A3v", true, th ? 3 : 2, unit); // a 3-dimensional view starts contiguous (a resize of an empty array never is)
   run_kind<Array<4, float>>(ctx, "A4", false, th ? 3 : 2, unit);
   return ctx.finish();
 }
